@@ -9,6 +9,7 @@ call kind).
 -/
 import Gotlcp.Lemmas.ConnAPI
 import Gotlcp.Lemmas.ConnAPIEof
+import Gotlcp.Lemmas.ConnAPIAlert
 import Gotlcp.Generated.Facts
 
 set_option linter.unusedSimpArgs false
@@ -20,6 +21,7 @@ open Gotlcp.Model.ConnAPI
 open Gotlcp.Lemmas.ConnAPI
 open Gotlcp.Lemmas.RecordRx
 open Gotlcp.Lemmas.ConnAPIEof
+open Gotlcp.Lemmas.ConnAPIAlert
 
 theorem C12_facts :
     Facts.missing = [] ∧
@@ -62,6 +64,16 @@ theorem C12_facts_shutdown :
     Facts.tlcp.apiLookAheadCond = "n != 0 && c.input.Len() == 0 && c.rawInput.Len() > 0 && recordType(c.rawInput.Bytes()[0]) == recordTypeAlert" ∧
     Facts.tlcp.apiLookAheadBody = "{ if err := c.readRecord(); err != nil { return n, err } }" :=
   ⟨rfl, rfl, rfl, rfl, rfl⟩
+
+/-- the Write / Close interlock on `c.activeCall` the model's `close` (the branch taken while a
+`Write` is in flight), `write` and `writeStart` transcribe: `Close` sets the close bit in a
+compare-and-swap loop that retries until it succeeds — whatever the number of Writes in flight
+(`x|1`) — and only then looks at that number; with a Write in flight it closes the transport and
+returns; `Write` refuses a closed connection and counts itself in and out -/
+theorem C12_facts_interlock :
+    Facts.tlcp.apiCloseInterlockStmts = ["var x int32", "for { x = atomic.LoadInt32(&c.activeCall) if x&1 != 0 { return net.ErrClosed } if atomic.CompareAndSwapInt32(&c.activeCall, x, x|1) { break } }", "if x != 0 { return c.conn.Close() }"] ∧
+    Facts.tlcp.apiWriteInterlockStmts = ["for { x := atomic.LoadInt32(&c.activeCall) if x&1 != 0 { return 0, net.ErrClosed } if atomic.CompareAndSwapInt32(&c.activeCall, x, x+2) { break } }", "defer atomic.AddInt32(&c.activeCall, -2)"] :=
+  ⟨rfl, rfl⟩
 
 /-- `handshakeContext` watches every context that can be cancelled (not only those with a deadline):
 the model's `handshake c true` = "the interrupter closed the transport" presupposes it -/
@@ -191,22 +203,76 @@ theorem close_frame (c : Conn) :
   · simp [hcb]
   · obtain ⟨g1, g2, g3, g4, g5, g6, g7, g8⟩ := closeSend_frame { c with closedBit := true }
     simp only [hcb, Bool.false_eq_true, if_false]
+    by_cases hfl : c.inflight.isSome = true
+    · simp [hfl]
+    simp only [hfl, Bool.false_eq_true, if_false]
     exact ⟨g1, g2, g3, g4, g5, g6, g7, g8, fun h => absurd h (by simp)⟩
 
 theorem closeWrite_frame (c : Conn) :
     (closeWrite c).1.rx = c.rx ∧ (closeWrite c).1.inErrX = c.inErrX ∧ (closeWrite c).1.rcc = c.rcc ∧
     (closeWrite c).1.closedBit = c.closedBit ∧ (c.cnSent = true → (closeWrite c).1.cnSent = true) ∧
     (closeWrite c).1.outErr = c.outErr ∧ (closeWrite c).1.hsDone = c.hsDone ∧ (closeWrite c).1.hsErr = c.hsErr ∧
-    ((closeWrite c).2 ≠ .err .earlyCloseWrite → (closeWrite c).1.cnSent = true) := by
+    ((closeWrite c).2 ≠ .err .earlyCloseWrite → (closeWrite c).2 ≠ .wouldBlock → (closeWrite c).1.cnSent = true) := by
   unfold closeWrite
   by_cases hd : c.hsDone = true
   · obtain ⟨g1, g2, g3, g4, g5, g6, g7, g8⟩ := closeNotify_frame c
     simp only [hd, Bool.not_true, Bool.false_eq_true, if_false]
+    by_cases hfl : (c.inflight.isSome && !c.cnSent) = true
+    · simp only [hfl, if_true]; simp at hfl; simp [hfl, hd]
+    simp only [hfl, Bool.false_eq_true, if_false]
     generalize closeNotify c = r at *
     obtain ⟨c2, ae⟩ := r
     simp only at g1 g2 g3 g4 g5 g6 g7 g8
     cases ae <;> simp_all
   · simp [hd]
+
+theorem writeStart_frame (c : Conn) (d : Bytes) :
+    (writeStart c d).1.rx = c.rx ∧ (writeStart c d).1.inErrX = c.inErrX ∧ (writeStart c d).1.rcc = c.rcc ∧
+    (writeStart c d).1.closedBit = c.closedBit ∧ (writeStart c d).1.cnSent = c.cnSent ∧
+    (c.outErr.isSome = true → (writeStart c d).1.outErr.isSome = true) ∧
+    (HsFailed c → (writeStart c d).1 = c) ∧
+    (c.hsDone = true → (writeStart c d).1.hsDone = true ∧ (writeStart c d).1.hsErr = c.hsErr) := by
+  obtain ⟨f1, f2, f3, f4, f5, f6, f7, f8, f9, f10, f11⟩ := handshake_frame c false
+  unfold Model.ConnAPI.writeStart
+  by_cases hcb : c.closedBit = true
+  · simp only [hcb, if_true]
+    simp
+  simp only [hcb, Bool.false_eq_true, if_false]
+  generalize hh : handshake c false = hr at *
+  obtain ⟨c1, e1⟩ := hr
+  simp only at f1 f2 f3 f4 f5 f6 f7 f8 f9 f10 f11
+  have hdone : c.hsDone = true → c1.hsDone = true ∧ c1.hsErr = c.hsErr := by
+    intro h; have := (f11 h).1; subst this; exact ⟨h, rfl⟩
+  have hfail : HsFailed c → c1 = c := fun h => (f10 h.1 h.2).1
+  cases e1 with
+  | some e => simp only; exact ⟨f4, f5, f3, by simp_all, f2, fun h => by rw [f6]; exact h, hfail, hdone⟩
+  | none =>
+    simp only
+    have hnf : ¬ HsFailed c := by
+      intro h; have := (f10 h.1 h.2).2
+      have h2 := h.2
+      rw [← this] at h2; simp at h2
+    repeat' split
+    all_goals simp only
+    all_goals refine ⟨?_, ?_, ?_, ?_, ?_, ?_, fun h => absurd h hnf, ?_⟩
+    all_goals first
+      | exact f4 | exact f5 | exact f3 | exact f1 | exact f2 | exact hdone
+      | (intro h; rw [← f6] at h; exact h)
+      | skip
+    all_goals simp_all
+
+theorem writeEnd_frame (c : Conn) :
+    (writeEnd c).1.rx = c.rx ∧ (writeEnd c).1.inErrX = c.inErrX ∧ (writeEnd c).1.rcc = c.rcc ∧
+    (writeEnd c).1.closedBit = c.closedBit ∧ (writeEnd c).1.cnSent = c.cnSent ∧
+    (c.outErr.isSome = true → (writeEnd c).1.outErr.isSome = true) ∧
+    (writeEnd c).1.hsDone = c.hsDone ∧ (writeEnd c).1.hsErr = c.hsErr ∧
+    (writeEnd c).1.cnErr = c.cnErr ∧ (writeEnd c).1.inflight = none := by
+  unfold Model.ConnAPI.writeEnd
+  cases hfl : c.inflight with
+  | none => simp [hfl]
+  | some data =>
+    simp only
+    split <;> simp
 
 theorem step_handshake_fst (c : Conn) (cb : Bool) : (step c (.handshake cb)).1 = (handshake c cb).1 := by
   simp only [step]
@@ -242,6 +308,11 @@ theorem hsFailed_step (c : Conn) (k : Call) (h : HsFailed c) : HsFailed (step c 
     obtain ⟨_, _, _, _, _, _, g7, g8⟩ := step_arrive_frame c it
     exact ⟨by rw [g7]; exact h.1, by rw [g8]; exact h.2⟩
   | setWFail w => exact h
+  | writeStart d => rw [show (step c (.writeStart d)).1 = (writeStart c d).1 from rfl, (writeStart_frame c d).2.2.2.2.2.2.1 h]; exact h
+  | writeEnd =>
+    obtain ⟨_, _, _, _, _, _, g7, g8, _⟩ := writeEnd_frame c
+    exact ⟨by rw [show (step c .writeEnd).1 = (writeEnd c).1 from rfl, g7]; exact h.1,
+           by rw [show (step c .writeEnd).1 = (writeEnd c).1 from rfl, g8]; exact h.2⟩
 
 /-- C12 (handshake): once `Handshake` has returned an error, every later `Handshake` — after any
 history of other calls and transport events — returns an error as well. -/
@@ -279,6 +350,8 @@ theorem writeDead_step (c : Conn) (k : Call) (h : WriteDead c) : WriteDead (step
     | handshake cb => rw [step_handshake_fst, (handshake_frame c cb).1]; exact h
     | arrive it => rw [(step_arrive_frame c it).2.2.2.1]; exact h
     | setWFail w => exact h
+    | writeStart d => rw [show (step c (.writeStart d)).1 = (writeStart c d).1 from rfl, (writeStart_frame c d).2.2.2.1]; exact h
+    | writeEnd => rw [show (step c .writeEnd).1 = (writeEnd c).1 from rfl, (writeEnd_frame c).2.2.2.1]; exact h
   · right; left; exact hsFailed_step c k h
   · right; right; left
     cases k with
@@ -289,6 +362,8 @@ theorem writeDead_step (c : Conn) (k : Call) (h : WriteDead c) : WriteDead (step
     | handshake cb => rw [step_handshake_fst, (handshake_frame c cb).2.2.2.2.2.1]; exact h
     | arrive it => rw [(step_arrive_frame c it).2.2.2.2.2.1]; exact h
     | setWFail w => exact h
+    | writeStart d => exact (writeStart_frame c d).2.2.2.2.2.1 h
+    | writeEnd => exact (writeEnd_frame c).2.2.2.2.2.1 h
   · right; right; right
     cases k with
     | read n => rw [show (step c (.read n)).1 = (read c n).1 from rfl, (read_frame c n).2.1]; exact h
@@ -298,6 +373,8 @@ theorem writeDead_step (c : Conn) (k : Call) (h : WriteDead c) : WriteDead (step
     | handshake cb => rw [step_handshake_fst, (handshake_frame c cb).2.1]; exact h
     | arrive it => rw [(step_arrive_frame c it).2.2.2.2.1]; exact h
     | setWFail w => exact h
+    | writeStart d => rw [show (step c (.writeStart d)).1 = (writeStart c d).1 from rfl, (writeStart_frame c d).2.2.2.2.1]; exact h
+    | writeEnd => rw [show (step c .writeEnd).1 = (writeEnd c).1 from rfl, (writeEnd_frame c).2.2.2.2.1]; exact h
 
 theorem writeDead_after (hist : List Call) : ∀ c, WriteDead c → WriteDead (after c hist) := by
   induction hist with
@@ -359,6 +436,9 @@ theorem write_err_dead (c : Conn) (d : Bytes) (e : ApiErr) (h : (write c d).2 = 
       by_cases hcn : c1.cnSent = true
       · simp only [hcn, if_true]; exact Or.inr (Or.inr (Or.inr hcn))
       · simp only [hcn, Bool.false_eq_true, if_false] at h ⊢
+        by_cases hfl : c1.inflight.isSome = true
+        · simp [hfl] at h
+        simp only [hfl, Bool.false_eq_true, if_false] at h ⊢
         by_cases hde : d = []
         · simp [hde] at h
         · simp only [hde, if_false] at h ⊢
@@ -379,9 +459,9 @@ to act because the handshake has not completed: also when the transport failed e
 close_notify record and works again afterwards — every later `Write` fails.  (`closeNotify` sets
 `closeNotifySent` whatever `sendAlertLocked` returned: `C12_facts_shutdown`.) -/
 theorem C12_write_after_closewrite (c : Conn) (hist : List Call) (d : Bytes)
-    (h : (closeWrite c).2 ≠ .err .earlyCloseWrite) :
+    (h : (closeWrite c).2 ≠ .err .earlyCloseWrite) (hret : (closeWrite c).2 ≠ .wouldBlock) :
     ∃ e, (write (after (closeWrite c).1 hist) d).2 = .err e :=
-  write_dead _ _ (writeDead_after hist _ (Or.inr (Or.inr (Or.inr ((closeWrite_frame c).2.2.2.2.2.2.2.2 h)))))
+  write_dead _ _ (writeDead_after hist _ (Or.inr (Or.inr (Or.inr ((closeWrite_frame c).2.2.2.2.2.2.2.2 h hret)))))
 
 /-- the shutdown of the write side has been attempted and its result is recorded -/
 def CnDone (c : Conn) (r : Option ApiErr) : Prop := c.hsDone = true ∧ c.cnSent = true ∧ c.cnErr = r
@@ -411,6 +491,15 @@ theorem write_cn (c : Conn) (d : Bytes) : (write c d).1.cnErr = c.cnErr := by
   repeat' split
   all_goals simp_all
 
+theorem writeStart_cn (c : Conn) (d : Bytes) : (writeStart c d).1.cnErr = c.cnErr := by
+  obtain ⟨h1, h2, _⟩ := handshake_cn c false
+  unfold Model.ConnAPI.writeStart
+  generalize handshake c false = hr at h1 h2
+  obtain ⟨c1, e1⟩ := hr
+  simp only at h1 h2
+  repeat' split
+  all_goals simp_all
+
 theorem closeNotify_done (c : Conn) (r : Option ApiErr) (hs : c.cnSent = true) (he : c.cnErr = r) :
     closeNotify c = (c, r) := by
   unfold closeNotify; simp [hs, he]
@@ -430,13 +519,16 @@ theorem cnDone_step (c : Conn) (k : Call) (r : Option ApiErr) (h : CnDone c r) :
     by_cases hcb : c.closedBit = true
     · simp only [hcb, if_true]; exact ⟨hd, hs, he⟩
     · simp only [hcb, Bool.false_eq_true, if_false]
+      by_cases hfl : c.inflight.isSome = true
+      · simp only [hfl, if_true]; exact ⟨hd, hs, he⟩
+      simp only [hfl, Bool.false_eq_true, if_false]
       have : closeSend { c with closedBit := true } = ({ c with closedBit := true }, r) := by
         unfold closeSend; simp only [hd, if_true]; exact closeNotify_done _ r hs he
       rw [this]; exact ⟨hd, hs, he⟩
   | closeWrite =>
     show CnDone (closeWrite c).1 r
     unfold closeWrite
-    simp only [hd, Bool.not_true, Bool.false_eq_true, if_false, closeNotify_done c r hs he]
+    simp only [hd, hs, Bool.not_true, Bool.and_false, Bool.false_eq_true, if_false, closeNotify_done c r hs he]
     cases r <;> exact ⟨hd, hs, he⟩
   | handshake cb =>
     rw [step_handshake_fst]
@@ -446,6 +538,147 @@ theorem cnDone_step (c : Conn) (k : Call) (r : Option ApiErr) (h : CnDone c r) :
     refine ⟨by rw [g7]; exact hd, by rw [g5]; exact hs, ?_⟩
     simp only [step]; split <;> exact he
   | setWFail w => exact ⟨hd, hs, he⟩
+  | writeStart d =>
+    exact ⟨((writeStart_frame c d).2.2.2.2.2.2.2 hd).1, by rw [show (step c (.writeStart d)).1 = (writeStart c d).1 from rfl, (writeStart_frame c d).2.2.2.2.1]; exact hs,
+      by rw [show (step c (.writeStart d)).1 = (writeStart c d).1 from rfl, writeStart_cn c d]; exact he⟩
+  | writeEnd =>
+    obtain ⟨_, _, _, _, g5, _, g7, _, g9, _⟩ := writeEnd_frame c
+    exact ⟨by rw [show (step c .writeEnd).1 = (writeEnd c).1 from rfl, g7]; exact hd,
+      by rw [show (step c .writeEnd).1 = (writeEnd c).1 from rfl, g5]; exact hs,
+      by rw [show (step c .writeEnd).1 = (writeEnd c).1 from rfl, g9]; exact he⟩
+
+/-! ### the Write in flight holds `c.out`
+
+`closeNotifySent` changes only under `c.out`; a Write gets in flight only past the test of that flag.
+So in every state a history can reach, a Write in flight means the flag is clear. -/
+
+/-- the Write in flight (if any) got past `if c.closeNotifySent` and the flag has not changed since -/
+def InflightOk (c : Conn) : Prop := c.inflight.isSome = true → c.cnSent = false
+
+theorem handshake_inflight (c : Conn) (cb : Bool) : (handshake c cb).1.inflight = c.inflight := by
+  unfold handshake
+  cases hd : c.hsDone <;> cases he : c.hsErr <;> cases cb <;> cases hl : c.localClosed <;>
+    cases hs : c.hsScript <;> simp [hd, he, hl, hs]
+
+theorem read_inflight (c : Conn) (n : Nat) : (read c n).1.inflight = c.inflight := by
+  have h1 := handshake_inflight c false
+  unfold Model.ConnAPI.read
+  generalize handshake c false = hr at h1
+  obtain ⟨c1, e1⟩ := hr
+  simp only at h1
+  repeat' split
+  all_goals simp_all
+
+theorem write_inflight (c : Conn) (d : Bytes) : (write c d).1.inflight = c.inflight := by
+  have h1 := handshake_inflight c false
+  unfold Model.ConnAPI.write
+  generalize handshake c false = hr at h1
+  obtain ⟨c1, e1⟩ := hr
+  simp only at h1
+  repeat' split
+  all_goals simp_all
+
+theorem closeNotify_inflight (c : Conn) : (closeNotify c).1.inflight = c.inflight := by
+  unfold closeNotify; split <;> simp
+
+theorem close_inflight (c : Conn) : (close c).1.inflight = c.inflight := by
+  unfold Model.ConnAPI.close closeSend
+  have := closeNotify_inflight { c with closedBit := true }
+  repeat' split
+  all_goals simp_all
+
+theorem closeWrite_inflight (c : Conn) : (closeWrite c).1.inflight = c.inflight := by
+  unfold closeWrite
+  have := closeNotify_inflight c
+  generalize closeNotify c = r at this
+  obtain ⟨c2, e2⟩ := r
+  repeat' split
+  all_goals simp_all
+
+/-- a Write gets in flight only with `closeNotifySent` clear -/
+theorem writeStart_inflight (c : Conn) (d : Bytes) :
+    (writeStart c d).1.inflight = c.inflight ∨ (c.cnSent = false ∧ (writeStart c d).1.inflight = some d) := by
+  have h1 := handshake_inflight c false
+  have h2 := (handshake_frame c false).2.1
+  unfold Model.ConnAPI.writeStart
+  generalize handshake c false = hr at h1 h2
+  obtain ⟨c1, e1⟩ := hr
+  simp only at h1 h2
+  repeat' split
+  all_goals simp_all
+
+theorem step_inflight (c : Conn) (k : Call) :
+    (step c k).1.inflight = c.inflight ∨ (step c k).1.inflight = none ∨
+    (c.cnSent = false ∧ ∃ d, k = .writeStart d) := by
+  cases k with
+  | read n => exact Or.inl (read_inflight c n)
+  | write d => exact Or.inl (write_inflight c d)
+  | close => exact Or.inl (close_inflight c)
+  | closeWrite => exact Or.inl (closeWrite_inflight c)
+  | handshake cb => rw [step_handshake_fst]; exact Or.inl (handshake_inflight c cb)
+  | arrive it => left; simp only [step]; split <;> rfl
+  | setWFail w => exact Or.inl rfl
+  | writeStart d =>
+    rcases writeStart_inflight c d with h | h
+    · exact Or.inl h
+    · exact Or.inr (Or.inr ⟨h.1, d, rfl⟩)
+  | writeEnd => exact Or.inr (Or.inl (writeEnd_frame c).2.2.2.2.2.2.2.2.2)
+
+/-- `closeNotifySent` is set only by a call that holds `c.out`, i.e. with no Write in flight -/
+theorem step_cnSent (c : Conn) (k : Call) (hinv : InflightOk c) :
+    (step c k).1.cnSent = c.cnSent ∨ c.inflight = none := by
+  cases hfl : c.inflight with
+  | none => exact Or.inr rfl
+  | some dd =>
+    left
+    have hcs : c.cnSent = false := hinv (by simp [hfl])
+    cases k with
+    | read n => exact (read_frame c n).2.1
+    | write d => exact (write_frame c d).2.2.2.2.1
+    | close =>
+      show (close c).1.cnSent = c.cnSent
+      unfold Model.ConnAPI.close
+      by_cases hcb : c.closedBit = true
+      · simp [hcb]
+      · simp [hcb, hfl]
+    | closeWrite =>
+      show (closeWrite c).1.cnSent = c.cnSent
+      unfold closeWrite
+      by_cases hd : c.hsDone = true
+      · simp [hd, hfl, hcs]
+      · simp [hd]
+    | handshake cb => rw [step_handshake_fst]; exact (handshake_frame c cb).2.1
+    | arrive it => exact (step_arrive_frame c it).2.2.2.2.1
+    | setWFail w => rfl
+    | writeStart d => exact (writeStart_frame c d).2.2.2.2.1
+    | writeEnd => exact (writeEnd_frame c).2.2.2.2.1
+
+theorem inflightOk_step (c : Conn) (k : Call) (hinv : InflightOk c) : InflightOk (step c k).1 := by
+  intro hsome
+  rcases step_inflight c k with h | h | ⟨h, d, rfl⟩
+  · rw [h] at hsome
+    rcases step_cnSent c k hinv with h2 | h2
+    · rw [h2]; exact hinv hsome
+    · rw [h2] at hsome; simp at hsome
+  · rw [h] at hsome; simp at hsome
+  · rw [show (step c (.writeStart d)).1 = (writeStart c d).1 from rfl, (writeStart_frame c d).2.2.2.2.1]; exact h
+
+/-- C12 (the Write/Close interlock, invariant): in every state a history of calls and events reaches
+from a state with this property — in particular from a fresh connection — a Write in flight means
+`closeNotifySent` is clear. -/
+theorem C12_inflight_holds_out (c : Conn) (hinv : InflightOk c) (hist : List Call) : InflightOk (after c hist) := by
+  induction hist generalizing c with
+  | nil => exact hinv
+  | cons k ks ih => exact ih _ (inflightOk_step c k hinv)
+
+example : InflightOk {} := by intro h; simp at h
+
+theorem cnSent_noflight_step (c : Conn) (k : Call) (hs : c.cnSent = true) (hf : c.inflight = none) :
+    (step c k).1.inflight = none := by
+  rcases step_inflight c k with h | h | ⟨h, _⟩
+  · rw [h]; exact hf
+  · exact h
+  · rw [hs] at h; cases h
 
 theorem cnDone_after (hist : List Call) : ∀ (c : Conn) (r : Option ApiErr), CnDone c r → CnDone (after c hist) r := by
   induction hist with
@@ -456,7 +689,7 @@ theorem cnDone_after (hist : List Call) : ∀ (c : Conn) (r : Option ApiErr), Cn
 close_notify record — every later `CloseWrite`, after any history of other calls and transport
 events (the transport may work again), reports the same error, and `Close` reports an error too:
 the close_notify is not attempted a second time. -/
-theorem C12_closewrite_sticky (c : Conn) (e : ApiErr) (hist : List Call)
+theorem C12_closewrite_sticky (c : Conn) (e : ApiErr) (hist : List Call) (hinv : InflightOk c)
     (h : (closeWrite c).2 = .err e) (hne : e ≠ .earlyCloseWrite) :
     (closeWrite (after (closeWrite c).1 hist)).2 = .err e ∧
     ∃ e', (close (after (closeWrite c).1 hist)).2 = .err e' := by
@@ -466,9 +699,19 @@ theorem C12_closewrite_sticky (c : Conn) (e : ApiErr) (hist : List Call)
     | false =>
       have : (closeWrite c).2 = .err .earlyCloseWrite := by unfold closeWrite; simp [hd]
       rw [this] at h; cases h; exact absurd rfl hne
-  have h0 : CnDone (closeWrite c).1 (some e) := by
+  -- the call returned: no Write was in flight (one in flight would hold `c.out`, with the flag clear)
+  have hnf : c.inflight = none := by
+    cases hfl : c.inflight with
+    | none => rfl
+    | some dd =>
+      have hcs : c.cnSent = false := hinv (by simp [hfl])
+      unfold closeWrite at h
+      simp [hd, hfl, hcs] at h
+  have hblk : (c.inflight.isSome && !c.cnSent) = false := by simp [hnf]
+  have h0 : CnDone (closeWrite c).1 (some e) ∧ (closeWrite c).1.inflight = none := by
+    refine ⟨?_, by rw [closeWrite_inflight]; exact hnf⟩
     unfold closeWrite at h ⊢
-    simp only [hd, Bool.not_true, Bool.false_eq_true, if_false] at h ⊢
+    simp only [hd, hblk, Bool.not_true, Bool.false_eq_true, if_false] at h ⊢
     have hcn : (closeNotify c).1.cnSent = true ∧ (closeNotify c).1.cnErr = (closeNotify c).2 ∧
         (closeNotify c).1.hsDone = c.hsDone := by
       unfold closeNotify; split <;> simp_all
@@ -480,15 +723,22 @@ theorem C12_closewrite_sticky (c : Conn) (e : ApiErr) (hist : List Call)
       simp only [Res.err.injEq] at h
       subst h
       exact ⟨by rw [hcn.2.2]; exact hd, hcn.1, hcn.2.1⟩
-  obtain ⟨k1, k2, k3⟩ := cnDone_after hist _ _ h0
-  generalize after (closeWrite c).1 hist = c3 at k1 k2 k3 ⊢
+  have hall : ∀ (hist : List Call) (c : Conn), (CnDone c (some e) ∧ c.inflight = none) →
+      (CnDone (after c hist) (some e) ∧ (after c hist).inflight = none) := by
+    intro hist
+    induction hist with
+    | nil => intro c h; exact h
+    | cons k ks ih => intro c h; exact ih _ ⟨cnDone_step c k _ h.1, cnSent_noflight_step c k h.1.2.1 h.2⟩
+  obtain ⟨⟨k1, k2, k3⟩, k4⟩ := hall hist _ h0
+  generalize after (closeWrite c).1 hist = c3 at k1 k2 k3 k4 ⊢
   constructor
   · unfold closeWrite
-    simp only [k1, Bool.not_true, Bool.false_eq_true, if_false, closeNotify_done _ _ k2 k3]
+    simp only [k1, k2, Bool.not_true, Bool.and_false, Bool.false_eq_true, if_false, closeNotify_done _ _ k2 k3]
   · unfold Model.ConnAPI.close
     by_cases hcb : c3.closedBit = true
     · exact ⟨.closed, by simp [hcb]⟩
-    · simp only [hcb, Bool.false_eq_true, if_false]
+    · have hk : c3.inflight.isSome = false := by simp [k4]
+      simp only [hcb, hk, Bool.false_eq_true, if_false]
       refine ⟨e, ?_⟩
       have : closeSend { c3 with closedBit := true } = ({ c3 with closedBit := true }, some e) := by
         unfold closeSend; simp only [k1, if_true]; exact closeNotify_done _ _ k2 k3
@@ -520,6 +770,16 @@ theorem write_budget (c : Conn) (d : Bytes) : cnBudget (write c d).1 = cnBudget 
   repeat' split
   all_goals simp_all [List.filter_append]
 
+theorem writeStart_budget (c : Conn) (d : Bytes) : cnBudget (writeStart c d).1 = cnBudget c := by
+  obtain ⟨_, h2, _⟩ := handshake_cn c false
+  have h3 := (handshake_frame c false).2.1
+  unfold Model.ConnAPI.writeStart cnBudget alertsSent
+  generalize handshake c false = hr at h2 h3
+  obtain ⟨c1, e1⟩ := hr
+  simp only at h2 h3
+  repeat' split
+  all_goals simp_all [List.filter_append]
+
 /-- C12 (close-notify sent once): in every history of calls and transport events — also when the
 first attempt failed at the transport and the transport works again — `closeNotify` puts at most
 one close_notify record on the wire per connection, none once `closeNotifySent` is set. -/
@@ -539,6 +799,9 @@ theorem C12_close_notify_once (c : Conn) (hist : List Call) :
       by_cases hcb : c.closedBit = true
       · simp [hcb]
       · simp only [hcb, Bool.false_eq_true, if_false]
+        by_cases hfl : c.inflight.isSome = true
+        · simp only [hfl, if_true]; exact Nat.le_refl _
+        simp only [hfl, Bool.false_eq_true, if_false]
         unfold closeSend
         split
         · exact closeNotify_budget { c with closedBit := true }
@@ -546,6 +809,8 @@ theorem C12_close_notify_once (c : Conn) (hist : List Call) :
     | closeWrite =>
       show cnBudget (closeWrite c).1 ≤ cnBudget c
       unfold closeWrite
+      split
+      · exact Nat.le_refl _
       split
       · exact Nat.le_refl _
       · have := closeNotify_budget c
@@ -561,6 +826,17 @@ theorem C12_close_notify_once (c : Conn) (hist : List Call) :
       unfold cnBudget alertsSent
       rw [h1, (step_arrive_frame c it).2.2.2.2.1]; exact Nat.le_refl _
     | setWFail w => exact Nat.le_refl _
+    | writeStart d => exact Nat.le_of_eq (writeStart_budget c d)
+    | writeEnd =>
+      show cnBudget (writeEnd c).1 ≤ cnBudget c
+      have hA : (P.tApp == P.tAlert) = false := by decide
+      unfold Model.ConnAPI.writeEnd cnBudget alertsSent
+      cases hfl : c.inflight with
+      | none => simp
+      | some data =>
+        have hwe : wErr { c with inflight := none } = wErr c := rfl
+        simp only [hwe]
+        cases hw : wErr c <;> simp [List.filter_append, hA]
   have hall : ∀ (hist : List Call) (c : Conn), cnBudget (after c hist) ≤ cnBudget c := by
     intro hist
     induction hist with
@@ -569,6 +845,153 @@ theorem C12_close_notify_once (c : Conn) (hist : List Call) :
   have := hall hist c
   unfold cnBudget at this
   omega
+
+/-! ### Close while a Write is in flight -/
+
+theorem closedBit_step (c : Conn) (k : Call) (h : c.closedBit = true) : (step c k).1.closedBit = true := by
+  cases k with
+  | read n => rw [show (step c (.read n)).1 = (read c n).1 from rfl, (read_frame c n).1]; exact h
+  | write d => rw [show (step c (.write d)).1 = (write c d).1 from rfl, (write_frame c d).2.2.2.1]; exact h
+  | close => exact (close_frame c).2.2.2.1
+  | closeWrite => rw [show (step c .closeWrite).1 = (closeWrite c).1 from rfl, (closeWrite_frame c).2.2.2.1]; exact h
+  | handshake cb => rw [step_handshake_fst, (handshake_frame c cb).1]; exact h
+  | arrive it => rw [(step_arrive_frame c it).2.2.2.1]; exact h
+  | setWFail w => exact h
+  | writeStart d => rw [show (step c (.writeStart d)).1 = (writeStart c d).1 from rfl, (writeStart_frame c d).2.2.2.1]; exact h
+  | writeEnd => rw [show (step c .writeEnd).1 = (writeEnd c).1 from rfl, (writeEnd_frame c).2.2.2.1]; exact h
+
+theorem closedBit_after (hist : List Call) : ∀ c : Conn, c.closedBit = true → (after c hist).closedBit = true := by
+  induction hist with
+  | nil => intro c h; exact h
+  | cons k ks ih => intro c h; exact ih _ (closedBit_step c k h)
+
+/-- C12 (Close stays reported, whatever was in flight): after `Close` has returned — whatever it
+returned, and also when it was called while a `Write` was inside the transport write (then it only
+closes the transport to break that Write; the compare-and-swap loop has set the close bit all the
+same) — after any history of further calls and events, among them the broken Write returning, a
+second `Close` reports that the connection is closed, and every `Write`, whether it runs to the end
+or is observed only up to the transport, is refused at the interlock with the closed error. -/
+theorem C12_close_twice (c : Conn) (hist : List Call) (d : Bytes) :
+    (close (after (close c).1 hist)).2 = .err .closed ∧
+    (write (after (close c).1 hist) d).2 = .err .closed ∧
+    (writeStart (after (close c).1 hist) d).2 = .err .closed := by
+  have h1 := closedBit_after hist _ ((close_frame c).2.2.2.1)
+  refine ⟨(close_frame _).2.2.2.2.2.2.2.2 h1, ?_, ?_⟩
+  · unfold Model.ConnAPI.write; simp [h1]
+  · unfold Model.ConnAPI.writeStart; simp [h1]
+
+/-- … and the Write that was in flight when `Close` was called fails with the closed error when its
+transport write returns (the transport was closed under it), nothing of it is logged as written,
+and the error is latched on the write half. -/
+theorem C12_close_breaks_write (c : Conn) (data : Bytes) (hcb : c.closedBit = false) (hfl : c.inflight = some data) :
+    (close c).2 = .ok [] ∧ (close c).1.closedBit = true ∧
+    (writeEnd (close c).1).2 = .err .closed ∧ (writeEnd (close c).1).1.outErr = some .closed ∧
+    (writeEnd (close c).1).1.outLog = c.outLog ∧ (writeEnd (close c).1).1.cnSent = c.cnSent := by
+  unfold Model.ConnAPI.close Model.ConnAPI.writeEnd
+  simp [hcb, hfl, wErr]
+
+/-- a `Write` cut in two at the transport write is the same call: with no other Write in flight,
+`writeStart` either returns what `write` returns (the call never reached the transport) or parks,
+and then `writeEnd` produces the state and the result of `write`. -/
+theorem C12_write_split (c : Conn) (d : Bytes) (hfl : c.inflight = none) :
+    ((writeStart c d).2 ≠ .wouldBlock → writeStart c d = write c d) ∧
+    ((writeStart c d).2 = .wouldBlock → writeEnd (writeStart c d).1 = write c d) := by
+  have h1 := handshake_inflight c false
+  unfold Model.ConnAPI.writeStart Model.ConnAPI.write
+  by_cases hcb : c.closedBit = true
+  · simp [hcb]
+  simp only [hcb, Bool.false_eq_true, if_false]
+  generalize handshake c false = hr at h1
+  obtain ⟨c1, e1⟩ := hr
+  simp only at h1
+  have hf1 : c1.inflight = none := by rw [h1]; exact hfl
+  cases e1 with
+  | some e => simp
+  | none =>
+    simp only
+    cases ho : c1.outErr with
+    | some e => simp
+    | none =>
+      simp only
+      by_cases hd : c1.hsDone = true
+      · by_cases hcn : c1.cnSent = true
+        · simp [hd, hcn]
+        · by_cases hde : d = []
+          · simp [hd, hcn, hf1, hde]
+          · simp only [hd, hcn, hf1, hde, Bool.not_true, Bool.false_eq_true, if_false, Option.isSome_none]
+            refine ⟨fun h => absurd rfl h, fun _ => ?_⟩
+            have hce : ({ { c1 with inflight := some d } with inflight := none } : Conn) = c1 := by
+              cases c1; simp only at hf1; subst hf1; rfl
+            unfold Model.ConnAPI.writeEnd
+            simp only [hce]
+            rfl
+      · simp [hd]
+
+/-! ### a fatal error the record layer detects shuts the write side too -/
+
+def Res.isLocal : Res → Bool
+  | .err (.localAlert _) => true
+  | .okErr _ (.localAlert _) => true
+  | _ => false
+
+/-- a `Read` on an established connection with nothing latched on the read half that reports a
+local alert leaves `c.out.err` set — whatever the transport does with writes (`c.wfail`,
+`c.localClosed` are arbitrary): `sendAlertLocked` latches the local error after the attempt to
+write the alert record, not depending on its outcome (`C12_facts_sendAlert`) -/
+theorem read_local_latches_out (c : Conn) (n : Nat) (hd : c.hsDone = true) (hx : c.inErrX = none)
+    (hr : c.rx.err = none) (h : Res.isLocal (read c n).2 = true) : (read c n).1.outErr.isSome = true := by
+  obtain ⟨_, _, _, _, _, _, _, _, _, _, f11⟩ := handshake_frame c false
+  have hh : handshake c false = (c, none) := by
+    obtain ⟨a, b⟩ := f11 hd
+    exact Prod.ext a b
+  unfold Model.ConnAPI.read at h ⊢
+  by_cases hrc : (c.rcc && c.closedBit) = true
+  · simp [hrc, Res.isLocal] at h
+  simp only [hrc, Bool.false_eq_true, if_false, hh] at h ⊢
+  by_cases hn : n = 0
+  · simp [hn, Res.isLocal] at h
+  simp only [hn, if_false, hx] at h ⊢
+  by_cases hlc : (c.rx.err = none ∧ c.rx.input = [] ∧ c.localClosed = true)
+  · simp [hlc, Res.isLocal] at h
+  simp only [hlc, if_false] at h ⊢
+  generalize hsq : splitQueue c.queue = sq at h ⊢
+  obtain ⟨ws, it, rest⟩ := sq
+  simp only at h ⊢
+  have hs := readRec_sent (tailOf it) c.seg c.raw (tailBytes it) c.rx ws n hr
+  generalize readRec (tailOf it) c.seg c.raw (tailBytes it) c.rx ws n = rr at h hs ⊢
+  obtain ⟨⟨⟨rx', ws'⟩, r⟩, raw'⟩ := rr
+  simp only at h hs ⊢
+  have key : ReadRes.isLocal r = true → (outErrAfter c.rx rx' c.outErr).isSome = true :=
+    fun hl => outErrAfter_sent _ _ _ (hs.2 hl)
+  cases r with
+  | ok d => simp [Res.isLocal] at h
+  | okErr d e =>
+    cases e <;> simp [Res.isLocal, ofRx] at h
+    exact key (by simp [ReadRes.isLocal])
+  | err e =>
+    cases e <;> simp [Res.isLocal, ofRx] at h
+    exact key (by simp [ReadRes.isLocal])
+  | blocked d =>
+    simp only at h
+    repeat' split at h
+    all_goals simp [Res.isLocal] at h
+
+/-- C12 (fatal errors stay reported, both directions): once a `Read` on an established connection
+has reported a fatal error that this side detected — a local alert: the record did not authenticate,
+was oversized, of an unexpected type, … — alone or together with the last bytes, every later
+`Write` fails, after any history of other calls and transport events.  The state of the transport
+at the moment of the error is arbitrary: the alert record may have been refused (a write deadline
+that had lapsed, a transport error) and the transport may work again afterwards. -/
+theorem C12_fatal_shuts_write (c : Conn) (n : Nat) (hd : c.hsDone = true) (hx : c.inErrX = none)
+    (hr : c.rx.err = none) (h : Res.isLocal (read c n).2 = true) (hist : List Call) (d : Bytes) :
+    ∃ e, (write (after (read c n).1 hist) d).2 = .err e :=
+  write_dead _ _ (writeDead_after hist _ (Or.inr (Or.inr (Or.inl (read_local_latches_out c n hd hx hr h)))))
+
+-- a forged record while the transport refuses writes (the alert is lost), the transport recovers:
+-- the Write fails with the local error
+example : run { hsDone := true } [.setWFail .temp, .arrive (.record ⟨forgedMark + 23, 257, [1, 2, 3]⟩), .read 5,
+    .setWFail .none, .write [1]] =
+    [.event, .event, .err (.localAlert 20), .event, .err (.localAlert 20)] := by decide
 
 /-! ### reads -/
 
@@ -834,6 +1257,26 @@ theorem readDead_step (c : Conn) (k : Call) (hk : ∀ n, k = .read n → n ≠ 0
     · exact Or.inr (Or.inr (Or.inl ⟨by rw [g2]; exact h.1, by rw [g1]; exact h.2⟩))
     · exact Or.inr (Or.inr (Or.inr ⟨by rw [g1]; exact h.1, by rw [g1]; exact h.2⟩))
   | setWFail w => exact h
+  | writeStart d =>
+    obtain ⟨g1, g2, g3, g4, _, _, g7, _⟩ := writeStart_frame c d
+    rcases h with h | h | h | h
+    · exact Or.inl (hsFailed_step c (.writeStart d) h)
+    · exact Or.inr (Or.inl ⟨by rw [show (step c (.writeStart d)).1 = (writeStart c d).1 from rfl, g3]; exact h.1,
+                             by rw [show (step c (.writeStart d)).1 = (writeStart c d).1 from rfl, g4]; exact h.2⟩)
+    · exact Or.inr (Or.inr (Or.inl ⟨by rw [show (step c (.writeStart d)).1 = (writeStart c d).1 from rfl, g2]; exact h.1,
+                                     by rw [show (step c (.writeStart d)).1 = (writeStart c d).1 from rfl, g1]; exact h.2⟩))
+    · exact Or.inr (Or.inr (Or.inr ⟨by rw [show (step c (.writeStart d)).1 = (writeStart c d).1 from rfl, g1]; exact h.1,
+                                     by rw [show (step c (.writeStart d)).1 = (writeStart c d).1 from rfl, g1]; exact h.2⟩))
+  | writeEnd =>
+    obtain ⟨g1, g2, g3, g4, _, _, _, _, _, _⟩ := writeEnd_frame c
+    rcases h with h | h | h | h
+    · exact Or.inl (hsFailed_step c .writeEnd h)
+    · exact Or.inr (Or.inl ⟨by rw [show (step c .writeEnd).1 = (writeEnd c).1 from rfl, g3]; exact h.1,
+                             by rw [show (step c .writeEnd).1 = (writeEnd c).1 from rfl, g4]; exact h.2⟩)
+    · exact Or.inr (Or.inr (Or.inl ⟨by rw [show (step c .writeEnd).1 = (writeEnd c).1 from rfl, g2]; exact h.1,
+                                     by rw [show (step c .writeEnd).1 = (writeEnd c).1 from rfl, g1]; exact h.2⟩))
+    · exact Or.inr (Or.inr (Or.inr ⟨by rw [show (step c .writeEnd).1 = (writeEnd c).1 from rfl, g1]; exact h.1,
+                                     by rw [show (step c .writeEnd).1 = (writeEnd c).1 from rfl, g1]; exact h.2⟩))
 
 /-- C12 (read): once a `Read` (with a non-empty buffer) has returned an error other than a
 temporary transport error (a timeout), every later such `Read` — after any history of other calls
@@ -938,6 +1381,8 @@ theorem C12_lookahead_never_pending (c : Conn) (hist : List Call) (h0 : c.rx.err
     | handshake cb => rw [step_handshake_fst, (handshake_frame c cb).2.2.2.1]; exact h0
     | arrive it => rw [(step_arrive_frame c it).1]; exact h0
     | setWFail w => exact h0
+    | writeStart d => rw [show (step c (.writeStart d)).1 = (writeStart c d).1 from rfl, (writeStart_frame c d).1]; exact h0
+    | writeEnd => rw [show (step c .writeEnd).1 = (writeEnd c).1 from rfl, (writeEnd_frame c).1]; exact h0
 
 /-- C12 (Close, reads): with the close-bit test in `Read` (regenerated fact `apiReadChecksClosed`,
 pinned by `C12_facts`), after `Close` every later `Read` fails and delivers nothing — also when
@@ -1138,6 +1583,18 @@ theorem C12_eof_only_at_boundary (c : Conn) (hist : List Call) (h0 : NoEof c) (h
         rcases h with ⟨⟨n, hn⟩, _⟩ | h
         · cases hn
         · exact ih _ T (noEof_of_fields h0 b1 b2 b4) (by rw [b3]; exact hq) (by simpa [arrivals] using ha) h
+      | writeStart dd =>
+        simp only [ReadsEOF] at h
+        obtain ⟨b1, b2, b3, b4⟩ := step_other c (.writeStart dd) (by intro n h; cases h) (by intro i h; cases h)
+        rcases h with ⟨⟨n, hn⟩, _⟩ | h
+        · cases hn
+        · exact ih _ T (noEof_of_fields h0 b1 b2 b4) (by rw [b3]; exact hq) (by simpa [arrivals] using ha) h
+      | writeEnd =>
+        simp only [ReadsEOF] at h
+        obtain ⟨b1, b2, b3, b4⟩ := step_other c .writeEnd (by intro n h; cases h) (by intro i h; cases h)
+        rcases h with ⟨⟨n, hn⟩, _⟩ | h
+        · cases hn
+        · exact ih _ T (noEof_of_fields h0 b1 b2 b4) (by rw [b3]; exact hq) (by simpa [arrivals] using ha) h
   exact gen hist c _ h0 (fun x hx => by simp [hx]) (fun x hx => by simp [hx]) h
 
 /-- … in particular: a stream that carries no close_notify and does not end on a record boundary
@@ -1258,6 +1715,20 @@ theorem C12_eof_after_all_data (c : Conn) (hist : List Call) (h0 : NoEof c) (d :
         intro hl
         have hl0 : Live c := ⟨by rw [← b1]; exact hl.1, by rw [← b2]; exact hl.2⟩
         rw [b1, b3]; exact hinv hl0
+      | writeStart dd =>
+        simp only [untilEOF] at h
+        obtain ⟨b1, b2, b3, b4⟩ := step_other c (.writeStart dd) (by intro n h; cases h) (by intro i h; cases h)
+        refine ih _ _ _ B inp0 (noEof_of_fields h0 b1 b2 b4) ?_ d arr' h
+        intro hl
+        have hl0 : Live c := ⟨by rw [← b1]; exact hl.1, by rw [← b2]; exact hl.2⟩
+        rw [b1, b3]; exact hinv hl0
+      | writeEnd =>
+        simp only [untilEOF] at h
+        obtain ⟨b1, b2, b3, b4⟩ := step_other c .writeEnd (by intro n h; cases h) (by intro i h; cases h)
+        refine ih _ _ _ B inp0 (noEof_of_fields h0 b1 b2 b4) ?_ d arr' h
+        intro hl
+        have hl0 : Live c := ⟨by rw [← b1]; exact hl.1, by rw [← b2]; exact hl.2⟩
+        rw [b1, b3]; exact hinv hl0
   exact gen hist c [] [] c.queue c.rx.input h0 (fun _ => ⟨by simp, by simp⟩) d arr h
 
 /-! the end-of-stream theorems are not vacuous -/
@@ -1308,5 +1779,16 @@ example : run exConn [.setWFail .temp, .closeWrite, .setWFail .none, .write [1],
      .err .transportTemp, .err .closed] := by decide
 example : (after exConn [.setWFail .perm, .closeWrite, .setWFail .none, .write [1], .closeWrite, .close]).outLog = [] := by decide
 example : (after exConn [.write [7], .closeWrite, .closeWrite, .close]).outLog = [(23, [7]), (21, [1, 0])] := by decide
+
+/-! `Close` while a `Write` sits in the transport write, with plaintext still buffered: nothing more is
+handed out, the second `Close` reports closed, the broken Write returns the closed error; without
+`Close` the same Write cut in two is an ordinary Write -/
+example : run exConn [exData [1, 2, 3, 4, 5], .read 2, .writeStart [7], .close, .read 9, .close, .write [1], .writeEnd, .closeWrite] =
+    [.event, .ok [1, 2], .wouldBlock, .ok [], .err .closed, .err .closed, .err .closed, .err .closed, .err .closed] := by decide
+example : run exConn [.writeStart [7], .read 0, .handshake false, .writeEnd, .write [8], .closeWrite] =
+    [.wouldBlock, .ok [], .ok [], .ok [], .ok [], .ok []] := by decide
+example : (after exConn [.writeStart [7], .close, .writeEnd]).outLog = [] := by decide
+example : InflightOk (after exConn [.writeStart [7]]) ∧ (after exConn [.writeStart [7]]).inflight = some [7] := by
+  refine ⟨C12_inflight_holds_out _ (by intro h; simp [exConn] at h) _, by decide⟩
 
 end Gotlcp.Props.C12
